@@ -20,7 +20,7 @@ RULE = (
     "every body is held open and released one at a time only when the simulator is quiescent, so at each decision the framework has admitted "
     "as many bodies as it ever will (release order seeded, or swept systematically for small cases); also random-delay and ready-shuffle modes. "
     "Non-trivial = the limit was saturated (in_flight == k at some body entry); distinct = digest of (program shape, k, release order)."
-    ' Also: async generator nodes and interrupt handlers (both are node functions), and a SEQUENCE variant: an earlier top-level call with another limit, made from the same task, fails / returns FAILED / pauses / completes before the measured call.'
+    ' Also: async generator nodes and interrupt handlers (both are node functions), and a SEQUENCE variant: an earlier top-level call with another limit, made from the same task, fails / returns FAILED / pauses / completes before the measured call. Survivable failures: a node function or interrupt handler raises inside items of a continuing map (runner.map or map_over node, error_handling=continue); the rest of the call must still get its permits.'
 )
 ASSUMPTIONS = ["bodies of function nodes are the unit of 'executing'; gate functions are synchronous and cannot be held open"]
 
@@ -102,9 +102,25 @@ def gen_case(rng: random.Random, tier: str) -> dict:
         top_n = rng.randint(1, 6)
         if est_bodies(g, provide) * (top_n if top_map else 1) <= MAX_BODIES:
             break
+    # a SURVIVABLE node failure: a handler / function raises, the surrounding map continues with the other items;
+    # every failure must give its permit back or the rest of the call starves
+    fault = None
+    if rng.random() < 0.35:
+        from hgsim.spec import iter_nodes
+
+        cands = [(nd, d) for nd, d, _p in iter_nodes(g) if nd["kind"] in ("fn", "interrupt")]
+        ints = [c for c in cands if c[0]["kind"] == "interrupt"]
+        pool = ints if (ints and rng.random() < 0.7) else cands
+        if pool:
+            nd, _d = rng.choice(pool)
+            fault = {"node": nd["name"], "when": "before" if nd["kind"] == "interrupt" else rng.choice(["before", "after"]), "exc": rng.choice(gen.EXC_KINDS)}
+            for m, _d2, _p2 in iter_nodes(g):
+                if m["kind"] == "graph" and m.get("map_over"):
+                    m["error_handling"] = "continue"
     return {
         "graph": g,
         "inputs": {"provide": provide, "omit": []},
+        "fault": fault,
         "k": rng.choice([1, 1, 2, 2, 3, 4]),
         "hold_seeds": [rng.randrange(1 << 30) for _ in range(2)],
         "sweep": rng.random() < 0.4,
@@ -127,9 +143,13 @@ def run_case(doc: dict) -> dict:
     base_values = fill_values(doc["inputs"])
     op, kw = "run", {}
     values = base_values
+    flt = doc.get("fault")
+    faults = [{"kind": "raise", "node": flt["node"], "when": flt["when"], "fid": 0, "exc": flt["exc"]}] if flt else []
+    if flt:
+        kw = {"error_handling": "continue"}
     if doc.get("top_map"):
         mp = doc["top_map"]
-        op, kw = "map", {"map_over": mp}
+        op, kw = "map", dict(kw, map_over=mp)
 
         def values(graph, _b=base_values, _mp=mp):  # noqa: F811
             v = _b(graph)
@@ -144,13 +164,17 @@ def run_case(doc: dict) -> dict:
     def summary(w):
         out = w["out"]
         if out["status"] == "list":
-            return ["list", [[it["status"], canon(it["values"])] for it in out["items"]]]
+            return ["list", [[it["status"], canon(it["values"]) if it["status"] != "failed" else None] for it in out["items"]]]
+        if out["status"] == "failed":
+            return [out["status"], None, out["error"] and out["error"][0]]  # (partial values of a failed run are C02/C11's business)
         return [out["status"], canon(out["values"]), out["error"]]
 
     def world(cfg, label):
         nonlocal sat
-        w = run_world(g, values, mode="async", cfg=cfg, run_kwargs=dict(kw), op=op)
+        w = run_world(g, values, mode="async", cfg=cfg, run_kwargs=dict(kw), op=op, faults=copy.deepcopy(faults))
         rts.append(w["rt"])
+        if w["rt"].fired:
+            res["stats"]["fault_survivable_node_raise"] = res["stats"].get("fault_survivable_node_raise", 0) + len(w["rt"].fired)
         res["runs"] += 1
         sim_stats(res, w["out"])
         fault_counts(w["rt"], res["stats"])
@@ -185,7 +209,7 @@ def run_case(doc: dict) -> dict:
             if w["out"]["status"] not in ("deadlock", "step_cap", "no_outcome"):
                 if summary(w) != base:
                     viol.append((f"hold{i}:result_differs_from_unlimited_run", {"k": k, "unlimited": base, "limited": summary(w)}))
-                elif invocations(w["rt"]) != binv:
+                elif invocations(w["rt"]) != binv and not flt:
                     viol.append((f"hold{i}:invocations_differ_from_unlimited_run", {"k": k}))
         if doc.get("sweep"):
 
@@ -260,7 +284,7 @@ def shrink_candidates(doc: dict):
     from checks.c02 import shrink_program
 
     yield from shrink_program(doc)
-    for key, val in (("top_map", None), ("sweep", False), ("pre_run", None)):
+    for key, val in (("top_map", None), ("sweep", False), ("pre_run", None), ("fault", None)):
         if doc.get(key):
             c = copy.deepcopy(doc)
             c[key] = val
